@@ -8,6 +8,7 @@ memoises its result per update under the same key K(node), and the memo is renew
 import ast
 
 from sa.index import AnalysisError, ClassInfo
+from sa.index import before as _before
 from sa import dispatch as D
 from sa import effects as E
 from sa.rules import exh, ownrule
@@ -138,6 +139,23 @@ def _normalise_visit(fnode):
     if binds:
         fn = Sub().visit(fn)
         fn.body = [st for st in fn.body if not (isinstance(st, ast.Assign) and len(st.targets) == 1 and isinstance(st.targets[0], ast.Name) and st.targets[0].id in binds)]
+    # miss first:  if key not in cache: B else: A   ->   if key in cache: A else: B
+    for st in fn.body:
+        if isinstance(st, ast.If) and st.orelse:
+            t = st.test
+            pos = None
+            if isinstance(t, ast.Compare) and len(t.ops) == 1 and isinstance(t.ops[0], ast.NotIn):
+                pos = ast.Compare(left=t.left, ops=[ast.In()], comparators=t.comparators)
+            elif isinstance(t, ast.UnaryOp) and isinstance(t.op, ast.Not) and _hit_test(t.operand) is not None:
+                pos = t.operand
+            elif isinstance(t, ast.Compare) and len(t.ops) == 1 and isinstance(t.ops[0], ast.Is) and isinstance(t.comparators[0], ast.Constant) \
+                    and t.comparators[0].value is None and isinstance(t.left, ast.Call) and isinstance(t.left.func, ast.Attribute) and t.left.func.attr == 'get' \
+                    and len(t.left.args) == 1:
+                pos = ast.Compare(left=t.left, ops=[ast.IsNot()], comparators=t.comparators)
+            if pos is not None and _hit_test(pos) is not None:
+                st.test = ast.copy_location(pos, t)
+                st.body, st.orelse = st.orelse, st.body
+                ast.fix_missing_locations(st)
     # single-exit form:  if hit: A else: B; <tail>   ->   if hit: A; <tail>   followed by  B; <tail>
     for k, st in enumerate(fn.body):
         if isinstance(st, ast.If) and st.orelse and _hit_test(st.test) is not None and not isinstance(st.body[-1], (ast.Return, ast.Raise)):
@@ -288,7 +306,7 @@ def check_step(ix, rep, mon, rule='R-STEP'):
             order_ok = True
             for c in ast.walk(f.node):
                 if isinstance(c, ast.Call) and (D._delegation(ix, uv, f.owner, c) is not None or D._self_call(c) == 'visit'):
-                    if c.lineno < n.lineno:
+                    if _before(c, n):
                         order_ok = False
             if not order_ok:
                 rep.fail(rule, f.module.rel, f.qual, '%s:memo-renewed-first' % slotp, 'the memo is renewed after the traversal started', n.lineno)
